@@ -8,6 +8,7 @@ def run(ctx):
     names = core.generate(ctx, "Gen_Loot.tla", "Gen_Loot_names.cfg", 0, 0, ctx.seed, bfs=True, timeout=900)
     svc = core.generate(ctx, "Gen_Loot.tla", "Gen_Loot_svc.cfg", 0, 0, ctx.seed, bfs=True, timeout=900)
     walks = core.generate(ctx, "Gen_Loot.tla", "Gen_Loot.cfg", 150 if quick else 3000, 10, ctx.seed, timeout=900)
+    walks += core.generate(ctx, "Gen_Loot.tla", "Gen_Loot_restart.cfg", 0, 0, ctx.seed, bfs=True, timeout=900)      # a restart in the middle
     ctx.say("  behaviours: %d names (complete alphabet, open/write/close) + %d service files + %d interleaving walks" % (len(names), len(svc), len(walks)))
     behs = names + svc + walks
     hb = core.build_harness(ctx)
